@@ -41,6 +41,13 @@ def spellings(v):
         out.append(("float", Raw("%d.0" % v)))
     if v >= 0:
         out.append(("plus", "+" + str(v)))
+        # zero-padded spellings of the same value: a 32-byte word (64 digits), one digit more, the member's own width,
+        # decimal with leading zeros — the value is what counts, however wide it is written
+        if v < 2 ** 256:
+            out.append(("hex-word64", "0x%064x" % v))
+        out.append(("hex-pad65", "0x0%064x" % v if v < 2 ** 256 else "0x00%x" % v))
+        out.append(("hex-pad-upper", "0x" + ("%066X" % v)))
+        out.append(("dec-pad", "000" + str(v)))
     return out
 
 
